@@ -22,8 +22,8 @@ ASSUMPTIONS = ["every member subscribes to at least one topic and at least one t
 REACH_MIN = {"need_topic_partitions_path": {"quick": 50, "thorough": 500},
              "identical_subscriptions": {"quick": 200, "thorough": 2000},
              "member_subscribed_to_nothing_with_partitions": {"quick": 30, "thorough": 300},
-             "e2e_leader_assignments": {"quick": 40, "thorough": 1000},
-             "e2e_assignments_after_partition_growth": {"quick": 8, "thorough": 200}}
+             "e2e_leader_assignments": {"quick": 40, "thorough": 842},
+             "e2e_assignments_after_partition_growth": {"quick": 8, "thorough": 168}}
 
 BATCH = 60
 ALPHABET = ["a", "A", "b", "B", "a1", "a10", "a2", "ab", "b-1", "m", "member-1", "member-10", "member-2", "Z", "z",
